@@ -16,6 +16,7 @@ package compiler
 //@ func compiler.encode returns r
 //@   property C05
 //@   ensures[len] len(r) == 2
+//@   ensures[fresh] fresh(r)
 //@   ensures[le] int(r[0]) + 256*int(r[1]) == int(i)
 
 //@ func compiler.compiler.patchJump
